@@ -15,8 +15,15 @@ cleanup() { rm -rf /verif/evidence; mv /verif/.build/evidence.keep.$$ /verif/evi
 trap cleanup EXIT
 cd $WT
 demo=zz_seed_demo_test.go
+# the demonstration's own -run pattern and -race flag, when its recorded command has them
+RUNPAT=$(python3 -c "
+import json,re
+c=json.load(open('$D/meta.json')).get('demo_cmd','')
+m=re.search(r\"-run[ =]+['\\\"]?([^'\\\" ]+)\", c)
+print(m.group(1) if m else 'Seed|Demo|ZZ|zz')")
+RACE=""; grep -q -- '-race' <(python3 -c "import json;print(json.load(open('$D/meta.json')).get('demo_cmd',''))") && RACE="-race"
 run_demo() {
-  if ls $D/demo_test.go* >/dev/null 2>&1; then cp $D/demo_test.go* $WT/$demo; go test -vet=off -count=1 -run 'Seed|Demo|ZZ|zz' . >/tmp/seedeval.$$.log 2>&1; rc=$?; rm -f $WT/$demo; return $rc
+  if ls $D/demo_test.go* >/dev/null 2>&1; then cp $D/demo_test.go* $WT/$demo; CGO_ENABLED=${RACE:+1} go test $RACE -vet=off -count=1 -run "$RUNPAT" . >/tmp/seedeval.$$.log 2>&1; rc=$?; rm -f $WT/$demo; return $rc
   elif [ -f $D/main.go ]; then mkdir -p $WT/zzdemo; cp $D/main.go $WT/zzdemo/main.go; go run ./zzdemo >/tmp/seedeval.$$.log 2>&1; rc=$?; rm -rf $WT/zzdemo; return $rc
   else echo "no demo"; return 3; fi
 }
